@@ -7,9 +7,9 @@ EXTENDS RowFrameDefs
 CONSTANTS MaxRows, Fams
 VARIABLES in, out, pc
 vars == <<in, out, pc>>
-Classes == [T : {"fin", "nan", "inf", "ninf"}, obs : {"fin", "nan"}]
+Classes == [T : {"fin", "nan", "inf", "ninf"}, obs : {"fin", "nan", "neg"}]       \* "neg": a finite, negative reading (net export, a credit)
 Model == [c |-> 10, hb |-> 1, hbp |-> 50, cb |-> 2, cbp |-> 60]
-Row(cl, k) == [T |-> cl.T, Tint |-> cl.T = "fin", Tv |-> IF cl.T = "fin" THEN 20 + ((13 * k) % 70) ELSE 0, obs |-> cl.obs, ov |-> IF cl.obs = "fin" THEN 100 + (k % 17) ELSE 0]
+Row(cl, k) == [T |-> cl.T, Tint |-> cl.T = "fin", Tv |-> IF cl.T = "fin" THEN 20 + ((13 * k) % 70) ELSE 0, obs |-> IF cl.obs = "neg" THEN "fin" ELSE cl.obs, ov |-> IF cl.obs = "fin" THEN 100 + (k % 17) ELSE IF cl.obs = "neg" THEN -(1000 + (k % 17)) ELSE 0]
 Expected(i) ==
   LET n == Len(i.rows)
       rows == [k \in 1..n |-> [pred |-> ExpPred(i, k), pv |-> IF Usable(i, k) THEN Curve(i.model, i.rows[k].Tv) ELSE 0,
